@@ -239,6 +239,30 @@ theorem utf8_to_utf8_idempotent (xs : List Nat) (len : Nat) (hlen : len ≤ xs.l
   subst hout
   simpa using utf8_to_utf8_verbatim cs hcs []
 
+/-- UTF-8 → UTF-8 that reports no failure preserves the name: the source was well-formed UTF-8
+(CESU-8 pairs allowed) read to its end (length exhausted or NUL), and the output is the regular
+UTF-8 of the same scalar values.  Contrapositive: every other byte string is reported with -1. -/
+theorem utf8_to_utf8_sound (xs : List Nat) (len : Nat) (hlen : len ≤ xs.length) (out : List Nat)
+    (h : utf8ToUtf8 xs len = .ok 0 out) :
+    ∃ items : List (Nat × Bool),
+      (∀ it ∈ items, Carries .utf8 it.1 ∧ (it.2 = true → 0x10000 ≤ it.1)) ∧
+      (items.flatMap (fun it => srcItem .utf8 it.1 it.2)).length ≤ len ∧
+      xs.take (items.flatMap (fun it => srcItem .utf8 it.1 it.2)).length = items.flatMap (fun it => srcItem .utf8 it.1 it.2) ∧
+      ((items.flatMap (fun it => srcItem .utf8 it.1 it.2)).length = len ∨
+        xs[(items.flatMap (fun it => srcItem .utf8 it.1 it.2)).length]? = some 0) ∧
+      out = encSeq .utf8 (items.map (·.1)) := by
+  simpa using utf8ToUtf8Loop_sound len xs [] out hlen h
+
+/-- `mbsnbytes` (front end of `archive_strncat_l` for every non-UTF-16 source): the length handed to
+the converter is at most `n`, lies inside the block, covers no NUL and stops at the first one. -/
+theorem source_ends_at_nul (xs : List Nat) (n : Nat) :
+    mbsnbytes xs n ≤ n ∧ mbsnbytes xs n ≤ xs.length ∧
+      (∀ i, i < mbsnbytes xs n → xs[i]? ≠ some 0) ∧
+      (mbsnbytes xs n < n → mbsnbytes xs n < xs.length → xs[mbsnbytes xs n]? = some 0) :=
+  mbsnbytes_spec xs n
+
+example : mbsnbytes [0x41, 0x42, 0, 0x43] 4 = 2 := by decide
+
 example : ∀ c ∈ [0x41, 0xE9, 0x20AC, 0x1F600], Carries .utf8 c := by decide
 example : encSeq .utf8 [0x41, 0xE9, 0x1F600] = [0x41, 0xC3, 0xA9, 0xF0, 0x9F, 0x98, 0x80] := by decide
 
